@@ -282,10 +282,38 @@ class SymListMixin:
         return None
 
     def try_concrete_while(self, s, st, limit=4096):
-        r = super().try_concrete_while(s, st, limit)
-        if r is None:
-            st.assume(OVER)          # the loop will be cut without an invariant
-        return r
+        """exact unrolling while the guard is DECIDED on each path -- by constant folding or because the path condition leaves
+        only one truth value feasible (e.g. a cell text assumed non-blank); gives up (-> cut, over-approximation) otherwise"""
+        from pyvc.symex import Outcome
+        live, done, steps = [st.fork()], [], 0
+        mark0 = len(self.sinks[-1])
+        while live:
+            steps += 1
+            if steps > limit:
+                del self.sinks[-1][mark0:]
+                st.assume(OVER)
+                return None
+            nxt = []
+            for cur in live:
+                for (s2, g) in self.ev(s.test, cur):
+                    branches = self.fork_truth(s2, g)
+                    if len(branches) != 1:
+                        del self.sinks[-1][mark0:]
+                        st.assume(OVER)      # the loop will be cut without an invariant
+                        return None
+                    s3, t = branches[0]
+                    if not t:
+                        done.append(Outcome("fall", s3))
+                        continue
+                    for o in self.exec_block(s.body, s3):
+                        if o.kind in ("fall", "continue"):
+                            nxt.append(o.st)
+                        elif o.kind == "break":
+                            done.append(Outcome("fall", o.st))
+                        else:
+                            done.append(o)
+            live = nxt
+        return done
 
     # ---------------------------------------------------------------- views --
     def as_seq(self, st, v):
